@@ -1,1 +1,7 @@
 //! Verification hooks: `net_report` (thin pass-through wrappers; feature `verif-hooks` only).
+//!
+//! The real `Report::update`, `RelayLatencies::{update_relay, merge, get}` and the report
+//! history behind `Client::add_report_history_and_set_preferred_relay` (C27, C28).  The
+//! wrappers live in `net_report.rs` (module `verif`) next to the private items.
+#[cfg(not(wasm_browser))]
+pub use crate::net_report::verif::*;
